@@ -258,8 +258,12 @@ def rules(rep, facts):
     if 'serde' in feats and 'serde_spanned' in facts.crates:
         r3_bridge(rep, facts)
         r4_uniform(rep, facts)
-    rep.not_implemented = ['C14/R5 type-level witnesses (E6)']
+
+
+def _witnesses(rep):
+    from .witness import report
+    report(rep, 'C14/R5', 'type level (compile-fail witnesses): spans cannot be forged or written from outside the crate; a parsed document is immutable', ['w02_rawstring_span_is_private', 'w07_table_span_is_private', 'w01_imdocument_is_immutable'])
 
 
 def run(tier):
-    return run_property(PROP, tier, rules, configs_thorough=['default', 'perf', 'edit_parse', 'edit_parse_serde', 'toml_parse'])
+    return run_property(PROP, tier, rules, configs_thorough=['default', 'perf', 'edit_parse', 'edit_parse_serde', 'toml_parse'], extra=_witnesses if tier == 'thorough' else None)
